@@ -7,8 +7,10 @@ import (
 	"fmt"
 	"io"
 	"os"
+	"runtime"
 	"sort"
 	"strings"
+	"sync"
 	"time"
 
 	"golang.org/x/sys/unix"
@@ -248,6 +250,89 @@ func runJailProbeJob(j *Job, res *JobResult) {
 			prob("C18 independence: chrooted tar of a directory with nil options gave entries [%s]; after an unrelated chrooted tar of a single file, an untar and a layer apply — all with nil options, on another root — the same call gives [%s] (error %v)", a, b, err)
 		}
 	}()
+	// ---- relative: a root given relative to the working directory is that directory's child, not "/"'s
+	func() {
+		_ = os.MkdirAll("/w/.rel/jail", 0o755)
+		_ = os.MkdirAll("/jail/d", 0o755) // the arena's own "/jail": what "/"+root would name
+		_ = os.WriteFile("/jail/d/victim", []byte("v"), 0o644)
+		defer os.RemoveAll("/jail")
+		if err := os.Chdir("/w/.rel"); err != nil {
+			skip("relative", err)
+			return
+		}
+		defer os.Chdir("/")
+		before, _ := scanWorld("/jail")
+		err1 := chrootarchive.UntarUncompressed(bytes.NewReader(small), "jail", nil)
+		err2 := chrootarchive.UntarWithRoot(bytes.NewReader(small), "jail", nil, "jail")
+		out.Ran = append(out.Ran, "relative")
+		after, _ := scanWorld("/jail")
+		if renderTree(before) != renderTree(after) {
+			prob("C01 relative root: chrooted untar with the relative root \"jail\" (working directory /w/.rel; results %v, %v) changed /jail, a directory outside the chosen root%s", err1, err2, twinDiff(renderTree(before), after))
+		}
+	}()
+
+	// ---- pending: chrooted tar streams that nobody reads yet must not keep other chrooted calls from running
+	func() {
+		oldp := runtime.GOMAXPROCS(2)
+		defer runtime.GOMAXPROCS(oldp)
+		var open []io.ReadCloser
+		var mu sync.Mutex
+		opened := make(chan error, 8)
+		for i := 0; i < 8; i++ {
+			r := fmt.Sprintf("/w/.p/r%d", i)
+			_ = os.MkdirAll(r+"/src", 0o755)
+			_ = os.WriteFile(r+"/src/big", bytes.Repeat([]byte("p"), 300000), 0o644)
+			go func() {
+				rc, err := chrootarchive.Tar(r+"/src", nil, r)
+				if err == nil {
+					mu.Lock()
+					open = append(open, rc)
+					mu.Unlock()
+				}
+				opened <- err
+			}()
+		}
+		drainAll := func() {
+			mu.Lock()
+			defer mu.Unlock()
+			for _, rc := range open {
+				go func(rc io.ReadCloser) { _, _ = io.Copy(io.Discard, rc); rc.Close() }(rc)
+			}
+			open = nil
+		}
+		for i := 0; i < 8; i++ {
+			select {
+			case err := <-opened:
+				if err != nil {
+					skip("pending", err)
+					drainAll()
+					return
+				}
+			case <-time.After(20 * time.Second):
+				out.Ran = append(out.Ran, "pending")
+				prob("C13/C18 independence: opening 8 chrooted tar streams on distinct roots (GOMAXPROCS=2, nothing read yet): the call for stream %d did not return within 20 s — a call that hands out a stream must not wait for other streams to be read", i+1)
+				drainAll()
+				time.Sleep(500 * time.Millisecond)
+				drainAll()
+				return
+			}
+		}
+		_ = os.MkdirAll("/w/.p/other", 0o755)
+		done := make(chan error, 1)
+		go func() { done <- chrootarchive.UntarUncompressed(bytes.NewReader(small), "/w/.p/other", nil) }()
+		out.Ran = append(out.Ran, "pending")
+		select {
+		case <-done:
+		case <-time.After(20 * time.Second):
+			prob("C13/C18 independence: with 8 chrooted tar streams open and not yet read (GOMAXPROCS=2), a chrooted untar on an unrelated root did not finish within 20 s — alone it finishes at once")
+		}
+		drainAll()
+		select {
+		case <-done:
+		case <-time.After(5 * time.Second):
+		}
+		time.Sleep(200 * time.Millisecond)
+	}()
 	_ = resetWorld()
 }
 
@@ -255,6 +340,11 @@ func runJailProbe(cfg *Config) *Result {
 	res := newResult("deterministic probes of the jail's set-up in four mount layouts (root on a shared mount; an unrelated shared mount with a nested mount; root = \"/\"; root on a read-only mount with includes that climb); non-trivial = every probe that ran")
 	results := runArena(cfg, []Job{{ID: 0, Kind: "jailprobe"}}, 60*time.Second)
 	jr := results[0]
+	if jr.Out == "hang" || jr.Out == "panic" {
+		res.Evaluations++
+		res.problem(Problem{Kind: "oracle", Stream: "jailprobe", Case: "jailprobe", Msg: "C13/C19: the jail probes (chrooted tar, untar, layer apply in seven mount and option layouts) ended in a " + jr.Out + ": " + jr.Err})
+		return res
+	}
 	if jr.ID < 0 || jr.Out != "ok" {
 		res.SetupError = "jailprobe: " + jr.Out + " " + jr.Err
 		return res
